@@ -288,7 +288,7 @@ func sensorFaultStep(rng *Rng, kind string, thorough bool, valid sensorStep) sen
 			return sensorStep{Fault: "garbage", Text: sensorCmdGarbage[rng.Intn(len(sensorCmdGarbage))], Cls: "err"}
 		case k == 4:
 			return sensorStep{Fault: "nocmd", Cls: "err"}
-		case k == 5 && thorough && rng.Chance(1, 8):
+		case k == 5 && thorough && rng.Chance(1, 40):
 			return sensorStep{Fault: "timeout", Text: valid.Text, Cls: "err"}
 		default:
 			nf := sensorCmdNonFinite[rng.Intn(len(sensorCmdNonFinite))]
